@@ -3,6 +3,7 @@
    Model: Model/Base64.v (util.BasicAuthHeaderValue, SetBearerAuthToken, net/http parseBasicAuth),
    Model/Digest.v (digest.go + an independent transcription of RFC 7616 section 3.4).
    The hash function is a universally quantified variable H everywhere. *)
+From Coq Require Import Permutation.
 From ReqV Require Import Lib.Bytes Model.Base64 Model.AuthParam Model.Digest
      Proofs.Base64Proofs Proofs.AuthParamProofs Proofs.DigestProofs Proofs.ChallengeTextProofs
      Proofs.DigestVerifyProofs.
@@ -197,6 +198,23 @@ Proof.
   exact (parse_challenge_rendered pre mid post xs H1 H2 H3 H4 (ends_tightb_spec xs H5)).
 Qed.
 Print Assumptions C20_challenge_text_parsed.
+
+(* ordering / quoting / white-space variants are the same challenge: two renderings whose
+   parameter lists are permutations of each other (names distinct) parse to the same result *)
+Theorem C20_renderings_agree : forall pre mid post xs pre' mid' post' ys c,
+  forallb is_chal_ws pre = true -> forallb is_chal_ws mid = true -> forallb is_chal_ws post = true ->
+  forallb piece_ok xs = true -> ends_tightb xs = true ->
+  forallb is_chal_ws pre' = true -> forallb is_chal_ws mid' = true -> forallb is_chal_ws post' = true ->
+  forallb piece_ok ys = true -> ends_tightb ys = true ->
+  Permutation (map padded_sem xs) (map padded_sem ys) -> NoDup (map fst (map padded_sem xs)) ->
+  parse_challenge (render_challenge pre mid post xs) = inl c ->
+  parse_challenge (render_challenge pre' mid' post' ys) = inl c.
+Proof.
+  intros pre mid post xs pre' mid' post' ys c H1 H2 H3 H4 H5 H6 H7 H8 H9 H10.
+  exact (renderings_agree pre mid post xs pre' mid' post' ys c H1 H2 H3 H4 (ends_tightb_spec xs H5)
+           H6 H7 H8 H9 (ends_tightb_spec ys H10)).
+Qed.
+Print Assumptions C20_renderings_agree.
 
 (* the splitter returns exactly the list elements, commas inside quoted strings included *)
 Theorem C20_split_rendered : forall xs, xs <> [] -> forallb piece_ok xs = true ->
